@@ -289,6 +289,7 @@ def run_task_level(ctx, wd):
                      ev[prefix] if prefix < len(ev) else None, "recorded ASGI event stream is not a behaviour of SseAsgi.tla at event %d" % (prefix + 1))
     run_plain_stream(ctx, wd)
     run_denial(ctx)
+    run_nosuspend(ctx)
     ctx.sample({"asgi_task_scenario": sc[len(sc) // 3], "events": [e["e"] + ("(%s)" % e["x"] if e["x"] else "") for e in traces[len(sc) // 3]["events"]]})
 
 
@@ -368,6 +369,66 @@ def run_denial(ctx):
                 elif st["sent"] != list(range(1, len(st["sent"]) + 1)):
                     ctx.violation(case, "items in order", st["sent"], "denied handshake with a streaming response: items lost or out of order")
                 ctx.nontriv(("denial-stream", kind, disc, gap))
+
+
+def run_nosuspend(ctx):
+    """zero delays everywhere: a producer that never awaits and a server whose send() returns without suspending (buffered writes).
+    The disconnect watcher is a separate task: it must still get its turn, so that the call returns by the producer's next step"""
+    import baize.asgi as A
+
+    async def play_ns(kind, disc_at_send, k=60):
+        state = {"closed": 0, "sends_after": 0, "bodies": 0}
+        disc = asyncio.Event()
+
+        async def gen():
+            try:
+                for i in range(1, k + 1):
+                    yield ({"data": str(i)} if kind == "sse" else b"item:%d;" % i)
+            finally:
+                state["closed"] += 1
+        first = [True]
+
+        async def receive():
+            if first[0]:
+                first[0] = False
+                return {"type": "http.request", "body": b"", "more_body": False}
+            await disc.wait()
+            return {"type": "http.disconnect"}
+
+        async def send(m):       # never suspends
+            if m["type"] == "http.response.body" and m.get("more_body"):
+                state["bodies"] += 1
+                if disc.is_set():
+                    state["sends_after"] += 1
+                if state["bodies"] == disc_at_send:
+                    disc.set()
+        app = A.SendEventResponse(gen(), ping_interval=2) if kind == "sse" else A.StreamResponse(gen())
+        exc = ""
+        try:
+            await asyncio.wait_for(app({"type": "http", "method": "GET", "path": "/", "headers": []}, receive, send), 300)
+        except BaseException as e:  # noqa
+            exc = type(e).__name__
+        for _ in range(6):
+            await asyncio.sleep(0)
+        me = asyncio.current_task()
+        state["pending"] = len([t for t in asyncio.all_tasks() if t is not me and not t.done()])
+        state["exc"] = exc
+        return state
+
+    for kind in ("stream", "sse"):
+        for at in (1, 2, 5):
+            st = vloop.run(play_ns(kind, at))
+            ctx.count()
+            case = {"response": "SendEventResponse" if kind == "sse" else "StreamResponse", "producer": "60 items, never awaits", "send": "never suspends",
+                    "client_gone_during_body_send": at}
+            if st["exc"]:
+                ctx.violation(case, "the call returns", st["exc"], "zero-delay ASGI stream: the call ended with %s" % st["exc"])
+            elif st["sends_after"] > 3:
+                ctx.violation(case, "at most the producer's next step after the disconnect", {"body_sends_after_the_disconnect": st["sends_after"]},
+                              "zero-delay ASGI stream: the disconnect watcher never gets a turn - %d more items were produced and sent after the client had gone" % st["sends_after"])
+            elif st["pending"] or st["closed"] != 1:
+                ctx.violation(case, "cleanup once, nothing pending", {"pending": st["pending"], "closed": st["closed"]}, "zero-delay ASGI stream: cleanup / pending tasks")
+            ctx.nontriv(("nosuspend", kind, at))
 
 
 PLAIN_INV = ["DeliveredInOrder", "ClosedOnce", "Settled", "CompleteWhenUndisturbed", "RaisedIsReported", "RaisedOnlyIfProducerRaised",
